@@ -234,6 +234,9 @@ func (h *header) decode(src []byte) (int, error) {
 		return total, fmt.Errorf("header/Decode: Remaining length (%d) is greater than remaining buffer (%d)", h.remlen, len(src[total:]))
 	}
 
+	// The decoding buffer is this packet only, not what follows it in src.
+	h.dbuf = src[:total+int(h.remlen)]
+
 	return total, nil
 }
 
